@@ -181,18 +181,53 @@ def fetch_rule(ctx, repo):
         raise FactError('skoolkit/rzxplay.py: fetch counter updates in process_block not recognised')
     def after(r0, d):
         return (r0 & 0x80) | ((r0 + d) & 0x7F)
+    # number of M1 fetches of the Python simulator's handler for DD/FD followed by each possible byte: its R increment, from the
+    # extracted effects of the after_DD / after_FD slots (1 where the prefix is a lone no-op, 2 where prefix + opcode execute together)
+    from sa.core import simfacts
+    from sa.core.effects import Unsupported
+    m = simfacts.SimModel(repo, need_c=False)
+    rinc = {}
+    for sl in m.slots():
+        if sl.table in ('after_DD', 'after_FD'):
+            if m.is_prefix(sl):
+                rinc[(sl.table, sl.index)] = {2}          # DD CB / FD CB: the prefix and CB are both M1 fetches
+                continue
+            try:
+                rinc[(sl.table, sl.index)] = {x for x in simfacts.summarize(m.canon('py', sl))['r']}
+            except Unsupported:
+                rinc[(sl.table, sl.index)] = None
+    if len(rinc) != 512:
+        raise FactError('skoolkit/simulator.py: after_DD / after_FD slots not recognised (%d)' % len(rinc))
     bad = None
-    for r0 in range(256):
-        for d in (1, 2):
-            got = Lit(repo, 'rzxplay', {'r0': r0, 'registers': {15: after(r0, d)}}).ev(pyexpr)
-            if got != d:
-                bad = (r0, d, got)
-                break
-        if bad: break
-    if bad:
-        ctx.violation('py fetch DD/FD', 'skoolkit/rzxplay.py:%d' % pyexpr.lineno, 'after a DD/FD instruction that advances R from %d by %d the fetch counter drops by %d' % bad)
+    undecided = None
+    checked = 0
+    for pre, tab in ((0xDD, 'after_DD'), (0xFD, 'after_FD')):
+        for nb in range(256):
+            ds = rinc[(tab, nb)]
+            if ds is None or not ds <= {1, 2}:
+                continue
+            for d in ds:
+                for r0 in (0, 1, 0x7E, 0x7F, 0x80, 0xFE, 0xFF, (nb * 7) % 256):
+                    for pc in (0x8000, 0xFFFF, 0xFFFE):
+                        mem = {(pc + 1) % 65536: nb, pc: pre, (pc + 2) % 65536: 0, (pc + 3) % 65536: 0}
+                        try:
+                            got = Lit(repo, 'rzxplay', {'r0': r0, 'registers': {15: after(r0, d), 24: (pc + d) % 65536}, 'memory': mem, 'pc': pc, 'opcode': pre}).ev(pyexpr)
+                        except (NotLiteral, KeyError) as e:
+                            undecided = str(e)
+                            break
+                        checked += 1
+                        if got != d and bad is None:
+                            bad = (pre, nb, d, got)
+                    if undecided: break
+                if undecided: break
+            if undecided: break
+        if undecided: break
+    if undecided:
+        ctx.limit('py fetch DD/FD', 'fetch counter expression `%s` not foldable over (R before, R after, next byte): %s' % (ast.unparse(pyexpr), undecided))
+    elif bad:
+        ctx.violation('py fetch DD/FD', 'skoolkit/rzxplay.py:%d' % pyexpr.lineno, 'for the sequence %02X %02X the simulator handler performs %d opcode fetch(es) (its R increment) but the fetch counter drops by %d' % bad)
     else:
-        ctx.ok({'impl': 'python', 'expr': ast.unparse(pyexpr), 'R values': 256})
+        ctx.ok({'impl': 'python', 'expr': ast.unparse(pyexpr), 'cases': checked})
     for op, want in ((0xCB, 2), (0xED, 2), (0x00, 1), (0x76, 1), (0xFF, 1)):
         got = Lit(repo, 'rzxplay', {'opcode': op}).ev(other)
         if got != want:
@@ -255,6 +290,8 @@ def run(ctx):
     repo = pyfacts.Repo(ctx.repo_root)
     container_rule(ctx, repo)
     fetch_rule(ctx, repo)
+    from sa.rules import hwstate
+    hwstate.run(ctx, repo, 'C20.5-hwstate')
     from sa.rules import C08paging, C09
     C08paging.python_sites(ctx, repo, rule='C20.3-latch', floor=8)
     C09.misc_rules(ctx, repo, repo.mod('snapshot'))
